@@ -681,6 +681,10 @@ def _(E, m, a, c0):
         t = z3.If(x.val >= 0, z3.ToInt(x.val + z3.RealVal('1/2')), -z3.ToInt(-x.val + z3.RealVal('1/2')))
         return F64(x.kind, z3.ToReal(t), x.signbit())
     if op == 'abs': return F64(z3.If(x.kind == 2, 1, x.kind), z3.If(x.val < 0, -x.val, x.val), z3.BoolVal(False))
+    if op == 'fract':
+        # x - trunc(x): exact (the fractional part of a double is a double); NaN for non-finite x; a zero result takes the sign of x
+        fr = x.val - z3.ToReal(trunc_r(x.val))
+        return F64(z3.If(x.kind == 3, 3, 0), z3.If(x.kind == 3, fr, 0), z3.And(x.kind == 3, fr == 0, x.signbit()))
     if op == 'is_nan': return x.kind == 0
     if op == 'is_infinite': return z3.Or(x.kind == 1, x.kind == 2)
     if op == 'is_finite': return x.kind == 3
